@@ -1,3 +1,4 @@
+import Proofs.Corollaries
 import Proofs.MatchSound
 import Proofs.EmbedSound
 /-! C12: the joint build is validated against the joint source (`scalar_end_to_end` …), and the joint source
